@@ -4,7 +4,7 @@
    Go standard-library text conversions used by the code (fmt "%g", strconv.ParseFloat,
    strconv.Itoa/FormatInt, strconv.Atoi) and math.Pow are parameters of the Section; they are
    instantiated with JV.Base.Decimal in Model/LibNumberInst.v.  math.Modf, math.Nextafter,
-   math.Abs are re-implemented here on spec_float; math.Mod/Floor/Ceil/Trunc/Sqrt come from
+   math.Round, math.Abs are re-implemented here on spec_float; math.Mod/Floor/Ceil/Trunc/Sqrt come from
    Base/F64.v.
 
    Stdlib + JV.Base only, no axioms; everything computes under vm_compute and extracts. *)
@@ -114,6 +114,23 @@ Definition nextafter (x y : f64) : f64 :=
   else if Bool.eqb (fltb x y) (fltb fzero x) then f_of_bits (bits_of_f x + 1)
   else f_of_bits (bits_of_f x - 1).
 
+(* math.Round: nearest integer, halves away from zero; exact (bit manipulation in Go);
+   ±0, ±Inf, NaN and every |x| >= 2^52 are returned unchanged, |x| < 0.5 gives ±0 *)
+Definition fround (x : f64) : f64 :=
+  match x with
+  | S754_finite s m e =>
+      match e with
+      | Zneg pe =>
+          let d := 2 ^ Zpos pe in
+          let q := Zpos m / d in
+          let r := Zpos m mod d in
+          let q' := if d <=? 2 * r then q + 1 else q in
+          f_of_Zexp (if s then - q' else q') 0 s
+      | _ => x
+      end
+  | _ => x
+  end.
+
 (* jlib.isHalfway (identical copy in jxpath) *)
 Definition is_halfway (x : f64) : bool :=
   let '(_, frac) := modf x in
@@ -169,11 +186,12 @@ Section NumberFns.
             let '(correction, _) := modf (fmod intermed f_two) in
             let intermed := fadd intermed correction in
             if fltb fzero intermed then ffloor intermed else fceil intermed
-          else if feqb intermed (ftrunc intermed) then intermed   (* already an integer (repaired in /repo) *)
-          else if fltb x fzero then fceil (fsub intermed f_half)
-          else ffloor (fadd intermed f_half) in
+          else fround intermed in      (* math.Round; was floor(intermed + 0.5), repaired *)
         if feqb x' fzero then fzero
-        else mult_by_pow10 x' (wrap64 (- p)).
+        else
+          (* scaling back can overflow: the number is then returned unrounded (repaired in /repo) *)
+          let res := mult_by_pow10 x' (wrap64 (- p)) in
+          if is_inf res then x else res.
 
   (* jlib.Power *)
   Definition power (x y : f64) : lres f64 :=
